@@ -40,7 +40,10 @@ TInit ==
 LPT(s) == [k \in {<<s[i].pid, s[i].v>> : i \in 1..Len(s)} |->
              LET i == CHOOSE j \in 1..Len(s) : <<s[j].pid, s[j].v>> = k IN
              [ppn |-> s[i].ppn, dev |-> s[i].dev, mig |-> s[i].mig = 1]]
-NoDupKeys(s) == \A i, j \in 1..Len(s) : i # j => <<s[i].pid, s[i].v>> # <<s[j].pid, s[j].v>>
+\* the logged table is complete ("ovf" > 0: the harness cut an absurdly large table short - never a behaviour of the
+\* specification, and not worth evaluating) and names every virtual page once
+NoDupKeys(s) == /\ (Has(Ev, "ovf") => Ev.ovf = 0)
+                /\ \A i, j \in 1..Len(s) : i # j => <<s[i].pid, s[i].v>> # <<s[j].pid, s[j].v>>
 WellFormed(s) == \A i \in 1..Len(s) : s[i].voff = 0 /\ s[i].poff = 0 /\ s[i].ok = 1
 Pages(bytes) == ((bytes - 1) \div psz) + 1
 Note(dv) == IF dv = {} THEN TRUE ELSE PrintT(<<"DEVIATION", l, dv>>)
